@@ -411,6 +411,112 @@ theorem lease_counted_from_call_start (cfg : Nat → LockCfg) (hd : DistinctIds 
   rw [run_now, acquireWith_now] at hnow
   omega
 
+/-! ### Round 4: the clauses of the property, each end to end (see props/C19.json, clause map) -/
+
+/-- **Acquire succeeds only if no other instance holds the key unexpired** (the clause, literally). -/
+theorem acquire_succeeds_only_if_no_other_holder (cfg : Nat → LockCfg) (hd : DistinctIds cfg) (st : St) (i : Nat)
+    (h : (acquire cfg st i).2 = true) (j : Nat) (hij : j ≠ i) (hk : (cfg j).key = (cfg i).key) :
+    ¬ holds cfg st j := by
+  intro hh
+  have := (others_refused_while_held cfg hd st j i hij hk hh).1
+  rw [h] at this; cases this
+
+/-- … and if nobody else holds it, it does succeed. -/
+theorem acquire_succeeds_if_no_other_holder (cfg : Nat → LockCfg) (st : St) (i : Nat)
+    (h : ∀ v, st.store.get (cfg i).key = some v → v = (cfg i).id) : (acquire cfg st i).2 = true := by
+  apply (acquire_iff_free_or_own cfg st i).2
+  cases hg : st.store.get (cfg i).key with
+  | none => exact Or.inl rfl
+  | some v => exact Or.inr (by rw [h v hg])
+
+/-- **Re-acquiring by the holder refreshes its lease**: if `i` is the holder, its Acquire succeeds, and from
+that moment the full lease `seconds·1000+500` runs again. -/
+theorem reacquire_by_holder_refreshes (cfg : Nat → LockCfg) (hd : DistinctIds cfg) (st : St) (i : Nat)
+    (hh : holds cfg st i) :
+    (acquire cfg st i).2 = true ∧
+    (acquire cfg st i).1.view (cfg i).key = some ((cfg i).id, ((st.secs i * 1000 + 500 : Nat) : Int)) ∧
+    ∀ ops : List Op, (∀ op ∈ ops, quietFor i op = true) →
+      (holds cfg (run cfg (acquire cfg st i).1 ops) i ↔ elapsed ops < st.secs i * 1000 + 500 + st.store.grace) := by
+  have h : (acquire cfg st i).2 = true := (acquire_iff_free_or_own cfg st i).2 (Or.inr hh)
+  exact ⟨h, (acquire_effect cfg st i).1 h, fun ops hq => lease_is_seconds_plus_500ms cfg hd st i (st.secs i) h ops hq⟩
+
+/-- **The lease lasts the CONFIGURED seconds plus 500 ms, end to end** (SetExpire → … → Acquire → lease):
+`SetExpire(s)` with any `s` in the `uint32` range; then any history `mid` in which nobody reconfigures `i`;
+then a successful Acquire by `i`; then anything by the others: `i` holds exactly while less than
+`s·1000 + 500 (+ grace)` ms have elapsed since that Acquire. -/
+theorem configured_lease_end_to_end (cfg : Nat → LockCfg) (hd : DistinctIds cfg) (st : St) (i s : Nat)
+    (hs : s < 4294967296) (mid : List Op) (hmid : ∀ op ∈ mid, keepsSeconds i op = true)
+    (h : (acquire cfg (run cfg (step cfg st (.setExpire i (s : Int))).1 mid) i).2 = true)
+    (ops : List Op) (hq : ∀ op ∈ ops, quietFor i op = true) :
+    holds cfg (run cfg (acquire cfg (run cfg (step cfg st (.setExpire i (s : Int))).1 mid) i).1 ops) i ↔
+      elapsed ops < s * 1000 + 500 + st.store.grace := by
+  have hsec : (run cfg (step cfg st (.setExpire i (s : Int))).1 mid).secs i = s := by
+    rw [run_secs_keep cfg i mid _ hmid]
+    have := setExpire_configures_seconds cfg st i (s : Int) (by omega) (by omega)
+    omega
+  have hg : (run cfg (step cfg st (.setExpire i (s : Int))).1 mid).store.grace = st.store.grace := by
+    rw [run_grace, step_grace]
+  have e : acquire cfg (run cfg (step cfg st (.setExpire i (s : Int))).1 mid) i =
+      acquireWith cfg (run cfg (step cfg st (.setExpire i (s : Int))).1 mid) i s := by
+    unfold acquire; rw [hsec]
+  rw [e] at h ⊢
+  rw [lease_is_seconds_plus_500ms cfg hd _ i s h ops hq, hg]
+
+/-- **Acquire under every schedule of round trips**: whatever happened between goroutine `t` entering
+`Acquire` of instance `a` and its script reaching Redis, if another instance `b` holds the key at that moment
+the round trip changes nothing and the call returns false. -/
+theorem acquire_in_any_schedule_refused_while_another_holds (g : Nat) (cfg : Nat → LockCfg) (hd : DistinctIds cfg)
+    (acts : List Act) (c : CConc) (h : crun real cfg (CConc.initG g) acts = some c) (t a b secs : Nat) (th : Thread)
+    (hth : c.thr t = some th) (hcall : th.call = .acq a secs) (cm : Cmd) (k : Reply → Prog)
+    (hp : th.prog = .cmd cm k) (hs : cm.isStoreStep = true)
+    (hab : a ≠ b) (hk : (cfg a).key = (cfg b).key) (hb : holds cfg c.st b) :
+    cstep real cfg c (.cmd t) =
+      some ({ st := c.st, thr := updT c.thr t (some { th with prog := .done false }) }, none) := by
+  rw [call_takes_effect_at_its_store_step g cfg acts c h t th hth cm k hp hs, hcall]
+  have hid : (cfg b).id ≠ (cfg a).id := fun e => hab (hd a b hk e.symm)
+  have hf : ¬ freeFor c.st.store (cfg a).key (cfg a).id := by
+    unfold holds at hb; rw [← hk] at hb
+    intro x; rcases x with x | x <;> simp [hb] at x; exact hid x
+  have e : step cfg c.st (Call.acq a secs).op = acquireWith cfg c.st a secs := rfl
+  have h1 : (acquireWith cfg c.st a secs).2 = false := by
+    cases hc : (acquireWith cfg c.st a secs).2 with
+    | false => rfl
+    | true => exact absurd ((acquireWith_result _ _ _ _).1 hc) hf
+  rw [e, h1, acquireWith_unchanged cfg c.st a secs hf]
+
+/-- **Release under every schedule reports true exactly for the holder** — holder at the moment the script
+runs, whatever happened since the call was entered: the call's result is `true` iff the caller is then the
+holder; if it is not, the shared state is untouched; if it is, its key is free afterwards. -/
+theorem release_in_any_schedule_true_iff_holder (g : Nat) (cfg : Nat → LockCfg)
+    (acts : List Act) (c : CConc) (h : crun real cfg (CConc.initG g) acts = some c) (t a : Nat) (th : Thread)
+    (hth : c.thr t = some th) (hcall : th.call = .rel a) (cm : Cmd) (k : Reply → Prog)
+    (hp : th.prog = .cmd cm k) (hs : cm.isStoreStep = true) :
+    cstep real cfg c (.cmd t) =
+      some ({ st := (release cfg c.st a).1,
+              thr := updT c.thr t (some { th with prog := .done (decide (holds cfg c.st a)) }) }, none) ∧
+    (¬ holds cfg c.st a → (release cfg c.st a).1 = c.st) ∧
+    (holds cfg c.st a → (release cfg c.st a).1.store.get (cfg a).key = none) := by
+  have hr := release_only_by_holder cfg c.st a
+  refine ⟨?_, hr.2.1, fun hh => (hr.2.2 hh).1⟩
+  rw [call_takes_effect_at_its_store_step g cfg acts c h t th hth cm k hp hs, hcall]
+  have e : step cfg c.st (Call.rel a).op = release cfg c.st a := rfl
+  rw [e]
+  by_cases hh : holds cfg c.st a
+  · simp [hh, hr.1.2 hh]
+  · have : (release cfg c.st a).2 = false := by
+      cases hc : (release cfg c.st a).2 with
+      | false => rfl
+      | true => exact absurd (hr.1.1 hc) hh
+    simp [hh, this]
+
+/-- **A whole call of the code that exists, entered through the public wrappers** (`Acquire()` →
+`AcquireCtx` → `ScriptRunCtx` → one script execution → decoding; likewise `Release()`), run by an idle
+goroutine without interference, is exactly one step of the model: same shared state, same result. -/
+theorem whole_call_is_one_model_step (cfg : Nat → LockCfg) (t : Nat) (c : CConc) (h : c.thr t = none) (op : Op)
+    (hs : isSimple op = true) :
+    wholeOp real cfg t c op = ({ c with st := (step cfg c.st op).1 }, (step cfg c.st op).2) :=
+  wholeOp_real cfg t c h op hs
+
 /-! ### How much `DistinctIds` assumes
 
 `NewRedisLock` draws the id with `stringx.Randn(16)`: 16 characters, each one of 62 (Tie: `tie_randomLen`,
@@ -537,5 +643,18 @@ example : (crun real exCfg CConc.init (lateScriptSchedule.take 8)).map (fun c =>
 example : (believes (grun exCfg St.init Belief.none [.acquire 0, .ft 500, .acquire 1]).2 500 0,
            believes (grun exCfg St.init Belief.none [.acquire 0, .ft 500, .acquire 1]).2 500 1) = (false, true) := by
   decide
+
+-- round 4
+example : keepsSeconds 0 (.setExpire 1 5) = true ∧ keepsSeconds 0 (.acquire 0) = true ∧ keepsSeconds 0 (.setExpire 0 5) = false := by decide
+
+example : (acquire exCfg (run exCfg (step exCfg St.init (.setExpire 0 4294967295)).1 [.setExpire 1 7, .acquire 1, .ft 7500]) 0).2 = true := by decide
+
+example : holds exCfg (run exCfg St.init [.setExpire 0 2, .acquire 0, .ft 2000]) 0 ∧
+    (run exCfg St.init [.setExpire 0 2, .acquire 0, .ft 2000, .acquire 0]).view "k" = some ("a", 2500) := by decide
+
+-- hypotheses of `acquire_in_any_schedule_refused_while_another_holds`: thread 1 has entered Acquire of instance 1
+-- (script run pending) while instance 0 holds
+example : (crun real exCfg CConc.init [.acquire 0 0 true, .cmd 0, .ret 0, .acquire 1 1 true]).map
+    (fun c => (pending c 1, decide (holds exCfg c.st 0))) = some (true, true) := by decide
 
 end GoZero.C19
